@@ -469,6 +469,69 @@ def fg_partners_contract():
     return {**old, "pre": pre, "carry": carry, "inv": inv, "inner_inv": inner_inv, "post": post}
 
 
+# ------------------------------------------------------------------------------------------
+# fg_id_numpy, stage 2 under the FULL unambiguity domain of the executable spec -- additionally: parent pointers are -1
+# or existing persons, and two different co-resident parents of an eligible child are Einstandspartner -- adds R5: a
+# childless child under 25 has the id of every co-resident parent. With R3 (exclusion), R4 (partners) and R2 (nesting)
+# this is the Familiengemeinschaft clause of C12 for any number of rows on that domain.
+# ------------------------------------------------------------------------------------------
+def fg_children_contract():
+    old = fg_partners_contract()
+    P_, c_ = z3.Int("P!"), z3.Int("c!")
+    def elig(inp, gh, st, c):
+        return z3.And(inp["alter"].arr[gh["rowof"](c)] < 25, z3.Not(st["p_id_to_p_ids_children"].dom[c]))
+    def par(inp, gh, c, P):
+        r = gh["rowof"](c)
+        return z3.And(P >= 0, z3.Or(inp["p_id_elternteil_1"].arr[r] == P, inp["p_id_elternteil_2"].arr[r] == P))
+    def exists(inp, gh, x_):
+        N, p, rowof = inp["N"], inp["p_id"].arr, gh["rowof"]
+        return z3.And(0 <= rowof(x_), rowof(x_) < N, p[rowof(x_)] == x_)
+    def cores(inp, gh, a, b):
+        hh, rowof = inp["hh_id"].arr, gh["rowof"]
+        return hh[rowof(a)] == hh[rowof(b)]
+    def pre(inp, gh):
+        N, p, e1, e2, rowof = inp["N"], inp["p_id"].arr, inp["p_id_elternteil_1"].arr, inp["p_id_elternteil_2"].arr, gh["rowof"]
+        return old["pre"](inp, gh) + [
+            ("VALID: parent pointers are -1 or existing persons", z3.ForAll([i], z3.Implies(z3.And(0 <= i, i < N), z3.And(z3.Implies(e1[i] >= 0, exists(inp, gh, e1[i])), z3.Implies(e2[i] >= 0, exists(inp, gh, e2[i])))))),
+        ]
+    def carry(inp, gh):
+        st, hyps = old["carry"](inp, gh)
+        ptr, rowof = inp["p_id_einstandspartner"].arr, gh["rowof"]
+        P2 = z3.Int("P2!")
+        vu = z3.ForAll([c_, P_, P2], z3.Implies(z3.And(exists(inp, gh, c_), elig(inp, gh, st, c_), par(inp, gh, c_, P_), par(inp, gh, c_, P2), P_ != P2, cores(inp, gh, c_, P_), cores(inp, gh, c_, P2)), ptr[rowof(P_)] == P2))
+        return st, [*hyps, vu]
+    def b7(inp, gh, st, excl=None):
+        fg = st["p_id_to_fg_id"]
+        cond = [exists(inp, gh, c_), elig(inp, gh, st, c_), par(inp, gh, c_, P_), cores(inp, gh, c_, P_), fg.dom[P_]]
+        if excl is not None:
+            cond += [P_ != excl[0], z3.Or(excl[1] < 0, P_ != excl[1])]
+        return z3.ForAll([c_, P_], z3.Implies(z3.And(*cond), z3.And(fg.dom[c_], fg.val[c_] == fg.val[P_])))
+    def inv(inp, gh, st, k):
+        return old["inv"](inp, gh, st, k) + [("B7 an eligible child has the id of every co-resident parent that has an id", b7(inp, gh, st))]
+    def inner_inv(inp, gh, st_entry, st, t, lst):
+        fg, nxt = st["p_id_to_fg_id"], st["next_fg_id"]
+        me, partner, cur = st_entry["current_p_id"], st_entry["current_p_id_einstandspartner"], st_entry["current_hh_id"]
+        ix = st["p_id_to_index"]
+        m = z3.Int("m!")
+        e = z3.Select(lst.arr, m)
+        return old["inner_inv"](inp, gh, st_entry, st, t, lst) + [
+            ("C9 the eligible co-resident children visited so far have the id of the unit being opened",
+             z3.ForAll([m], z3.Implies(z3.And(0 <= m, m < t, inp["hh_id"].arr[ix.val[e]] == cur, elig(inp, gh, st, e)), z3.And(fg.dom[e], fg.val[e] == nxt)))),
+            ("C10 B7 for parents other than the opener and the opener's partner", b7(inp, gh, st, (me, partner))),
+            ("C11 the opener and the partner hold the id being opened", z3.And(fg.dom[me], fg.val[me] == nxt, z3.Implies(partner >= 0, z3.And(fg.dom[partner], fg.val[partner] == nxt)))),
+        ]
+    def post(inp, gh, st):
+        N, p, e1, e2, hh, rowof = inp["N"], inp["p_id"].arr, inp["p_id_elternteil_1"].arr, inp["p_id_elternteil_2"].arr, inp["hh_id"].arr, gh["rowof"]
+        Rr = st["__return__"]
+        el = lambda r: z3.And(inp["alter"].arr[r] < 25, z3.Not(st["p_id_to_p_ids_children"].dom[p[r]]))
+        return old["post"](inp, gh, st) + [
+            ("R5 a childless child under 25 has the id of every co-resident parent",
+             z3.ForAll([i], z3.Implies(z3.And(0 <= i, i < N, el(i)), z3.And(z3.Implies(z3.And(e1[i] >= 0, hh[rowof(e1[i])] == hh[i]), Rr.arr[i] == Rr.arr[rowof(e1[i])]),
+                                                                            z3.Implies(z3.And(e2[i] >= 0, hh[rowof(e2[i])] == hh[i]), Rr.arr[i] == Rr.arr[rowof(e2[i])]))))),
+        ]
+    return {**old, "pre": pre, "carry": carry, "inv": inv, "inner_inv": inner_inv, "post": post}
+
+
 KERNELS = {
     "eg_id_numpy": couple_contract("p_id", "p_id_einstandspartner", "p_id_to_eg_id", "next_eg_id"),
     "ehe_id_numpy": couple_contract("p_id", "p_id_ehepartner", "p_id_to_ehe_id", "next_ehe_id"),
@@ -479,6 +542,7 @@ KERNELS = {
     "fg_id_numpy#index": fg_index_contract(),
     "fg_id_numpy#assign": fg_assign_contract(),
     "fg_id_numpy#partners": fg_partners_contract(),
+    "fg_id_numpy#children": fg_children_contract(),
 }
 
 
@@ -494,4 +558,5 @@ STATE_VARS = {
     "fg_id_numpy#index": [("p_id_to_index", "dict"), ("p_id_to_p_ids_children", "dictlist")],
     "fg_id_numpy#assign": [("p_id_to_index", "dict"), ("p_id_to_p_ids_children", "dictlist"), ("p_id_to_fg_id", "dict"), ("next_fg_id", "int")],
     "fg_id_numpy#partners": [("p_id_to_index", "dict"), ("p_id_to_p_ids_children", "dictlist"), ("p_id_to_fg_id", "dict"), ("next_fg_id", "int")],
+    "fg_id_numpy#children": [("p_id_to_index", "dict"), ("p_id_to_p_ids_children", "dictlist"), ("p_id_to_fg_id", "dict"), ("next_fg_id", "int")],
 }
